@@ -43,6 +43,19 @@ def traditional_clause(cl, rng, n, replay):
                 # the frequency vector is written and read back as it is, whatever its order (centre frequencies given high to low are legal)
                 f, A = f[::-1].copy(), A[:, ::-1].copy()
                 h = hvsrpy.HvsrTraditional(f, A)
+            if j % 5 == 2:
+                # magnitudes far from 1: deep troughs (amplitudes around 1e-3 and below), a long-period band (frequencies from 0.002 Hz), tiny amplitudes (SI units) -
+                # "bit for bit" holds for every float, not only for numbers between 0.1 and 20
+                kind = int(rng.integers(0, 3))
+                if kind == 0:
+                    A = A.copy()
+                    cols = rng.choice(A.shape[1], size=max(1, A.shape[1] // 6), replace=False)
+                    A[:, cols] *= rng.uniform(1e-4, 3e-3, size=(A.shape[0], len(cols)))
+                elif kind == 1:
+                    f = f * 0.01
+                else:
+                    A = A * float(rng.choice([1e-6, 1e-12, 3e-20]))
+                h = hvsrpy.HvsrTraditional(f, A)
             h.meta["processing_method"] = "traditional"
             hist = apply_history(rng, h, f)
             if rng.random() < 0.35:
